@@ -77,3 +77,42 @@ Example C14_example :
               s_states := []; s_top := 0; s_text := 0 |} in
   add_to_set s (MK 2 []) [MK 0 []; MK 1 []] = [MK 1 []; MK 2 []].
 Proof. reflexivity. Qed.
+
+(* ---- algebra of add / remove (Proofs/MarkMerge.v, Proofs/NodeMarkUndo.v) ---- *)
+From PM Require Import Proofs.MarkMerge Proofs.NodeMarkUndo.
+
+(* adding (removing) a mark twice is adding (removing) it once, for every schema, mark and set *)
+Theorem C14_add_idempotent : forall s m set, add_to_set s m (add_to_set s m set) = add_to_set s m set.
+Proof. exact add_to_set_idem. Qed.
+Print Assumptions C14_add_idempotent.
+
+Theorem C14_remove_idempotent : forall m set, remove_from_set m (remove_from_set m set) = remove_from_set m set.
+Proof. exact remove_from_set_idem. Qed.
+Print Assumptions C14_remove_idempotent.
+
+(* whenever adding a mark really grew the set (nothing was displaced, nothing blocked it), removing it again returns
+   the original set exactly *)
+Theorem C14_add_then_remove : forall s m set,
+  List.length (add_to_set s m set) = S (List.length set) ->
+  remove_from_set m (add_to_set s m set) = set.
+Proof.
+  intros s m set H. destruct (add_length_full s m set H) as (Hok & E). rewrite E. apply (remove_inserted s). exact Hok.
+Qed.
+Print Assumptions C14_add_then_remove.
+
+(* after an addition that was not blocked, the mark is in the set *)
+Theorem C14_added_mark_is_present : forall s m set,
+  blocked s m set = false -> is_in_set m (add_to_set s m set) = true.
+Proof.
+  intros s m set Hb. rewrite add_to_set_spec, Hb. apply is_in_set_spec. exists m. split; [|apply Proofs.DataProofs.mark_eqb_refl].
+  apply in_insert_sorted. left. reflexivity.
+Qed.
+Print Assumptions C14_added_mark_is_present.
+
+(* ... and after a removal it is not *)
+Theorem C14_removed_mark_is_absent : forall m set, is_in_set m (remove_from_set m set) = false.
+Proof.
+  intros m set. destruct (is_in_set m (remove_from_set m set)) eqn:E; [|reflexivity].
+  apply is_in_set_spec in E. destruct E as (y & Hy & Ey). apply remove_from_set_spec in Hy. destruct Hy as [_ Hy]. congruence.
+Qed.
+Print Assumptions C14_removed_mark_is_absent.
